@@ -60,7 +60,8 @@ var fieldValues = map[string][]string{
 var varyConfigs = []string{"", "X-A", "X-A, X-B", "X-B, X-A", "x-a", "*", "X-A, *", "Content-Language", "User-Agent", "Authorization",
 	"X-A|X-B", "If-Unmodified-Since", "X-A,,X-B"}
 
-var unsafeMethods = []string{"POST", "PUT", "DELETE", "PATCH", "PROPPATCH", "MKCOL", "FOO", "post"}
+// method tokens are case-sensitive: "get" is an extension method, not GET
+var unsafeMethods = []string{"POST", "PUT", "DELETE", "PATCH", "PROPPATCH", "MKCOL", "FOO", "post", "get", "Get", "gEt"}
 var safeOtherMethods = []string{"HEAD", "OPTIONS", "TRACE", "PROPFIND", "REPORT", "SEARCH"}
 
 func (g *G) reqHeaders(fields []string) Hdr {
@@ -154,7 +155,7 @@ func (g *G) genRandom(id string, opt randOpt) *History {
 		}
 		if g.chance(0.15) {
 			if cc := g.genReqCC(); len(cc) > 0 {
-				hdr = append(hdr, [2]string{"Cache-Control", ccJoin(cc)})
+				hdr = append(hdr, g.ccLines(cc)...)
 			}
 		}
 		if opt.methods && g.chance(0.05) {
@@ -349,11 +350,20 @@ func (g *G) classes() []genClass {
 	case "C02":
 		return []genClass{{7, grid}, {1, chain}, {1, sie}, {1, status}, {1, vary}}
 	case "C18":
-		return []genClass{{6, grid}, {2, gridFault}, {1, chain}, {1, sie}, {1, status}, {1, vary}}
+		return []genClass{{6, grid}, {2, gridFault}, {1, chain}, {1, sie}, {2, status}, {1, inval}, {1, vary}}
 	case "C06":
 		return []genClass{{4, grid}, {4, status}, {1, faults}, {1, inval}}
 	case "C10":
-		return []genClass{{3, grid}, {4, gridFault}, {3, faults}, {1, sie}}
+		debug := func(f func(g *G, id string) *History) func(g *G, id string) *History {
+			return func(g *G, id string) *History {
+				h := f(g, id)
+				if g.chance(0.5) {
+					h.Logger = "debug"
+				}
+				return h
+			}
+		}
+		return []genClass{{3, grid}, {4, gridFault}, {3, faults}, {1, sie}, {2, debug(inval)}, {1, debug(status)}}
 	case "C03":
 		return []genClass{{8, urls}, {2, inval}}
 	case "C04":
